@@ -25,7 +25,7 @@ RULE = ("grid over n ids {0..40}, pool size {1,2,4,8}, max_tasks {1,2,25}, task 
         "Distinct: hash of (run parameters, interleaving signature = order of done/reap/deliver events with ids erased).")
 ASSUMPTIONS = [
     "no worker is killed from outside; fork start method",
-    "bounded progress: a run still alive 60 s after its last logged event is reported as non-termination; a run killed by the outer watchdog earlier is inconclusive",
+    "bounded progress: a run in which no task starts, finishes or is delivered for 45 s is reported as non-termination; a run killed by the outer watchdog while still progressing is inconclusive",
     "the explicit-state model clause of the quantifier is NOT decided (different technique); schedule diversity from the grid and delay injection stands in, distinct interleavings are reported",
 ]
 FLOORS = {"quick": {"runs": 40, "delivered": 300, "retirements": 5, "failed_tasks_delivered": 5, "distinct:interleavings": 15, "network_error_tasks": 14, "retirement_waves_held_back": 1, "runs_with_tuple_ids": 2},
@@ -97,6 +97,9 @@ def plan(tier, seed):
     return [{"mode": "main", "tier": tier, "seed": seed, "runs": runs[k::nsh], "par": per} for k in range(nsh)]
 
 
+STALL_SECONDS = 45
+
+
 def one_run(spec, watchdog=240):
     d = tempfile.mkdtemp(prefix="vf_c12_")
     sp, lp = os.path.join(d, "spec.json"), os.path.join(d, "log.jsonl")
@@ -107,15 +110,31 @@ def one_run(spec, watchdog=240):
     p = subprocess.Popen([sys.executable, "-m", "vf.props.c12_driver", sp, lp], env=env, stdout=subprocess.DEVNULL,
                          stderr=subprocess.PIPE, start_new_session=True)
     status = "exited"
-    try:
-        _, err = p.communicate(timeout=watchdog)
-    except subprocess.TimeoutExpired:
-        status = "watchdog"
+    err = b""
+    last_progress, last_count = time.monotonic(), -1
+    while True:
         try:
-            os.killpg(p.pid, 9)
-        except Exception:
-            p.kill()
-        _, err = p.communicate()
+            _, err = p.communicate(timeout=2)
+            break
+        except subprocess.TimeoutExpired:
+            pass
+        # logical progress = a task started / finished / was delivered (parent loop iterations that only reap are not progress)
+        try:
+            with open(lp) as f:
+                count = sum(1 for line in f if '"k": "start"' in line or '"k": "done"' in line or '"k": "deliver"' in line or '"k": "submit"' in line)
+        except OSError:
+            count = 0
+        if count != last_count:
+            last_count, last_progress = count, time.monotonic()
+        stalled = time.monotonic() - last_progress > STALL_SECONDS
+        if stalled or time.monotonic() - t0 > watchdog:
+            status = "stalled" if stalled else "watchdog"
+            try:
+                os.killpg(p.pid, 9)
+            except Exception:
+                p.kill()
+            _, err = p.communicate()
+            break
     events = []
     try:
         with open(lp) as f:
@@ -207,6 +226,10 @@ def judge(spec, res, acc):
     acc.case([spec, sig], nontrivial=nontrivial)
 
     if end is None:
+        if res["status"] == "stalled":
+            acc.violation("C12/no-termination", "pool run made no progress (no task started, finished or delivered) for >%d s and did not terminate" % STALL_SECONDS,
+                          dict(w, wall=res["wall"]))
+            return "violated", None
         if res["status"] == "watchdog":
             last_t = max((e["t"] for e in ev), default=0)
             if res["wall"] - last_t > 60:
